@@ -27,7 +27,7 @@ package clickhouse_transpiler
 //@   modifies a.sqlConds, a.where
 //@ func (*AttrConditionPlanner).aggregator
 //@   modifies a.AggregatedAttr, a.where
-//@ func (*AttrConditionPlanner).Process [C14]
+//@ func (*AttrConditionPlanner).Process [C11,C14]
 //@   requires starts-unaliased: !a.isAliased
 //@   ensures ends-unaliased: result1 == nil ==> !a.isAliased
 
@@ -47,3 +47,18 @@ package clickhouse_transpiler
 //@   ensures matches: result1 == nil && t.Op == "=~" ==> reCmp(unbox(result0, "*sql.LogicalOp").clauses[1], 1)
 //@   ensures matches-not: result1 == nil && t.Op == "!~" ==> reCmp(unbox(result0, "*sql.LogicalOp").clauses[1], 0)
 //@   ensures other-operators-rejected: t.Op != "=" && t.Op != "!=" && t.Op != "=~" && t.Op != "!~" ==> result1 != nil
+
+// A numeric term: key equality, "the value is a number", and the comparison the
+// operator names on the numeric value.
+//@ spec fn cmpOp(r sql.SQLObject, op string) bool = typeis(r, "*sql.LogicalOp") && unbox(r, "*sql.LogicalOp").fn == op && len(unbox(r, "*sql.LogicalOp").clauses) == 2
+//@ func (*AttrConditionPlanner).getTermNum [C11]
+//@   modifies nothing
+//@   ensures shape: result1 == nil ==> typeis(result0, "*sql.LogicalOp") && unbox(result0, "*sql.LogicalOp").fn == "and" && len(unbox(result0, "*sql.LogicalOp").clauses) == 3 && keyIs(unbox(result0, "*sql.LogicalOp").clauses[0], key)
+//@   ensures eq: result1 == nil && t.Op == "=" ==> cmpOp(unbox(result0, "*sql.LogicalOp").clauses[2], "==")
+//@   ensures neq: result1 == nil && t.Op == "!=" ==> cmpOp(unbox(result0, "*sql.LogicalOp").clauses[2], "!=")
+//@   ensures gt: result1 == nil && t.Op == ">" ==> cmpOp(unbox(result0, "*sql.LogicalOp").clauses[2], ">")
+//@   ensures lt: result1 == nil && t.Op == "<" ==> cmpOp(unbox(result0, "*sql.LogicalOp").clauses[2], "<")
+//@   ensures ge: result1 == nil && t.Op == ">=" ==> cmpOp(unbox(result0, "*sql.LogicalOp").clauses[2], ">=")
+//@   ensures le: result1 == nil && t.Op == "<=" ==> cmpOp(unbox(result0, "*sql.LogicalOp").clauses[2], "<=")
+//@   ensures other-operators-rejected: t.Op != "=" && t.Op != "!=" && t.Op != ">" && t.Op != "<" && t.Op != ">=" && t.Op != "<=" ==> result1 != nil
+//@ pure \(github\.com/metrico/qryn/reader/traceql/parser\.[A-Za-z]+\)\.String \(\*github\.com/metrico/qryn/reader/traceql/parser\.[A-Za-z]+\)\.String
